@@ -461,3 +461,7 @@ from contracts.check_type import serialize_unit  # noqa: E402
 UNITS.append(serialize_unit("C01"))
 from contracts.share import shared  # noqa: E402
 UNITS += shared("C01", "contracts.c03", "_ActionPrintConfig.print_config_if_requested")
+
+# re-parsing a dump goes through _apply_actions: every dumped key (also one named like a Namespace method, below a group) must meet its action again
+from contracts.apply_actions import apply_actions_unit  # noqa: E402
+UNITS.append(apply_actions_unit("C01"))
